@@ -7,7 +7,10 @@ M: TLC checks Mol2Text.tla: the reference model of molli's mol2 writer/reader (t
 B: (typing) get_mol2_type -> set_mol2_type on a fresh atom -> get_mol2_type is recorded for every triple and every
    bond type on the real code; (structures) TLC generates objects (random walks of the Build actions + bundled mol2
    files), the harness builds them as real objects and records dumps_mol2 / loads_mol2 / loads_all_mol2 /
-   ConformerEnsemble.loads_mol2 / dumps / loads again.  All traces are validated by TLC against Mol2TextTrace: a step
+   ConformerEnsemble.loads_mol2 / dumps / loads again; then the SAME object is edited through public attributes as the
+   spec's Edit actions prescribe (bond re-typed, atom re-typed / re-labelled, atom moved, renamed) and written / read once
+   more, so that anything the writer remembers from the first write (cached tokens) shows up as a contract violation.
+   All traces are validated by TLC against Mol2TextTrace: a step
    is accepted only if the contract holds in the state it leads to.  Python never decides a verdict."""
 from __future__ import annotations
 import json, random, time
@@ -31,7 +34,8 @@ KNOWN: dict = {
 CLAUSES = ("WriteSucceeds", "Accepted", "ConformersPreserved", "NamePreserved", "AtomsPreserved", "LabelsPreserved",
            "CoordsPreserved", "ChargesPreserved", "BondsPreserved", "TextFixedPoint", "ReadStable")
 TYPING_CLAUSES = ("AtomTyping", "BondTyping")
-MC_ACTIONS = ("Build", "DoWrite", "DoRead", "DoWrite2", "DoRead2")
+MC_ACTIONS = ("Build", "Write", "Read", "Write2", "Read2")
+EDIT_ACTIONS = ("PickEdit", "ApplyEdit")
 
 # deviation -> (definition in MCMol2Text, clause(s) it is documented to break)
 DEVIATIONS = {
@@ -46,7 +50,11 @@ DEVIATIONS = {
     "ChargeColumnDropped": ("DevCharge", ("ChargesPreserved",)),
     "LabelTruncated": ("DevLabel", ("LabelsPreserved",)),
     "ConformerOrderLost": ("DevOrder", ("CoordsPreserved", "ChargesPreserved")),
+    # a writer that remembers tokens per bond / atom object re-emits them after the object was edited
+    "StaleBondTokenCache": ("DevStaleBond", ("BondsPreserved",)),
+    "StaleAtomTokenCache": ("DevStaleAtom", ("AtomsPreserved",)),
 }
+EDIT_DEVIATIONS = ("StaleBondTokenCache", "StaleAtomTokenCache")       # need the model with edits
 
 _VOC = None
 
@@ -88,14 +96,23 @@ MODELS = {
 }
 
 
+NO_EDITS = dict(MaxEdits=0, EditBonds="<- NoBonds", EditPhases="<- NoPhase")
+# build, write, read, write, read, then ONE edit of the same object (bond re-typed, atom re-typed/re-labelled, atom moved,
+# renamed) and the whole cycle again: <= 2 atoms from 3 recipes, <= 1 bond of 3 types, <= 2 conformers, 3 kinds, 2 names
+MODELS["edit"] = dict(Kinds="<- K3", Names="<- Names2", AtomPool="<- PoolT", BondPool="<- BondsM", MaxAtoms=2, MaxBonds=1,
+                      MaxConfs=2, MaxEdits=1, EditBonds="<- EditB", EditPhases="<- AfterCycle")
+MODELS["gen"].update(MaxEdits=3, EditBonds="<- BondTypes", EditPhases="<- AfterWrite")
+
+
 def mc_cfg(model, dev="DevNone"):
-    c = {**voc_consts(), **MODELS[model], "XyzSeq": "<- Xyz", "QSeq": "<- Qs", "Deviations": f"<- {dev}"}
+    c = {**voc_consts(), **NO_EDITS, **MODELS[model], "XyzSeq": "<- Xyz", "QSeq": "<- Qs", "Deviations": f"<- {dev}"}
     return dict(spec="Spec", constants=c, invariants=CLAUSES, view="View")
 
 
 def trace_cfg(clauses="<- AllClauses"):
     c = {**voc_consts(), "Kinds": "<- Empty", "Names": "<- Empty", "AtomPool": "<- Empty", "BondPool": "<- Empty",
-         "MaxAtoms": 0, "MaxBonds": 0, "MaxConfs": 0, "XyzSeq": "<- NoSeq", "QSeq": "<- NoSeq", "Deviations": "<- Empty",
+         "MaxAtoms": 0, "MaxBonds": 0, "MaxConfs": 0, "MaxEdits": 0, "EditBonds": "<- Empty", "EditPhases": "<- Empty",
+         "XyzSeq": "<- NoSeq", "QSeq": "<- NoSeq", "Deviations": "<- Empty",
          "Clauses": clauses}
     return dict(spec="TraceSpec", constants=c)
 
@@ -103,7 +120,8 @@ def trace_cfg(clauses="<- AllClauses"):
 # --------------------------------------------------------------------------------------------- M: model checking
 def model_jobs(tier):
     jobs = [("mc", "typing", "Mol2Text: every element x atom type x geometry triple through Write/Read/Write/Read", 2),
-            ("mc", "small", "Mol2Text: all bounded structures (<=2 atoms, every bond type, <=2 conformers, 3 kinds)", 1)]
+            ("mc", "small", "Mol2Text: all bounded structures (<=2 atoms, every bond type, <=2 conformers, 3 kinds)", 1),
+            ("mc", "edit", "Mol2Text: full cycle, every single edit of the same object, full cycle again (<=2 atoms, <=1 bond)", 1)]
     if tier == "thorough":
         jobs += [("mc", "medium", "Mol2Text: all bounded structures (<=3 atoms, <=1 bond of every type, <=3 conformers)", 4),
                  ("mc", "bonds", "Mol2Text: all bounded structures (<=3 atoms, <=3 bonds of 3 types, <=2 conformers)", 4)]
@@ -115,12 +133,13 @@ def run_model_job(job):
     kind, name, role, workers = job
     if kind == "mc":
         ev = Evidence(PROP, "x", 0)
-        acts = MC_ACTIONS + (("AddConf",) if name != "typing" else ())
+        acts = MC_ACTIONS + (("AddConf",) if name != "typing" else ()) + (EDIT_ACTIONS if name == "edit" else ())
         r = model_check(ev, "MCMol2Text", mc_cfg(name), role=role, tag="c07mc", workers=workers, timeout=1500,
                         require_actions=acts)
         return job, r
     dname, clauses = DEVIATIONS[name]
-    r = expect_violation("MCMol2Text", mc_cfg("dev", dname), clauses, tag="c07dev", workers=workers)
+    r = expect_violation("MCMol2Text", mc_cfg("edit" if name in EDIT_DEVIATIONS else "dev", dname), clauses, tag="c07dev",
+                         workers=workers)
     if r.violated not in clauses:
         raise tlc.MachineryError(f"deviation {name}: TLC reported {r.violated}, documented clause(s) {clauses}")
     return job, r
@@ -135,18 +154,29 @@ def generate(ev, tier, seed):
     def one(a):
         n, s = a
         return emit_graph(ev, "MCMol2Text", cfg, role=f"generation of objects: {n} random walks of the Build actions (seed {s})",
-                          tag="c07gen", simulate=f"num={n}", depth=13, seed=s, timeout=900)
+                          tag="c07gen", simulate=f"num={n}", depth=20, seed=s, timeout=900)
     with ThreadPoolExecutor(4) as ex:
         out = list(ex.map(one, runs))
     seen, cases = set(), []
     for edges in out:
+        walks, cur = [], None
         for e in edges:
-            if e.get("act") != "build":
-                continue
-            k = json.dumps(e["rec"], sort_keys=True)
+            # one walk at a time (workers 1).  A walk prints its build line, then for each edit it takes the line of
+            # ApplyEdit (a single successor; TLC may print it more than once), numbered by n = edits made so far
+            if e.get("act") == "build":
+                cur = {"src": "rec", "rec": e["rec"], "obj": e["obj"], "edits": [], "obj2": None}
+                walks.append(cur)
+            elif e.get("act") == "edit" and cur is not None:
+                if e["n"] == len(cur["edits"]) + 1:
+                    cur["edits"].append(e["op"])
+                    cur["obj2"] = e["obj"]    # the object after all edits so far, as the spec computed it
+                elif not (e["n"] == len(cur["edits"]) and e["op"] == cur["edits"][-1] and e["obj"] == cur["obj2"]):
+                    raise tlc.MachineryError(f"generation: unexpected edit line {json.dumps(e)[:300]}")
+        for c in walks:
+            k = json.dumps([c["rec"], c["edits"]], sort_keys=True)
             if k not in seen:
                 seen.add(k)
-                cases.append({"src": "rec", "rec": e["rec"], "obj": e["obj"]})
+                cases.append(c)
     return cases
 
 
@@ -186,10 +216,14 @@ def case_traces(ci, case, routes=("loads", "loads_all")):
     out, calls, text = [], 0, None
     for route in routes:
         o = realise(case)
-        ev, n, t = A.run_case(o, route)
+        edit = (case["edits"], case["obj2"]) if route == "loads" and case.get("edits") else None
+        ev, n, t = A.run_case(o, route, edit)
         if case["src"] == "rec" and ev[0]["obj"] != case["obj"]:
             raise tlc.MachineryError("harness: the object built from a TLC recipe is not the object the spec describes:\n"
                                      + json.dumps({"spec": case["obj"], "built": ev[0]["obj"]})[:1500])
+        if edit and len(ev) > 5 and ev[5]["obj"] != case["obj2"]:
+            raise tlc.MachineryError("harness: the edited object is not the object the spec's Edit actions describe:\n"
+                                     + json.dumps({"ops": case["edits"], "spec": case["obj2"], "edited": ev[5]["obj"]})[:1500])
         calls += n
         text = text or t
         out.append(({"tid": f"c{ci}-{route}", "ev": ev}, {"case": ci, "route": route}))
@@ -319,7 +353,13 @@ def binding_selftest(ev, rep):
     event.  A mutant that is accepted means the trace specification does not bind that field: machinery failure."""
     import copy
     mol, ens = selftest_cases()
+    ed = json.loads(json.dumps(mol["obj"]))
+    ed["blocks"][0]["bonds"][0]["bt"] = "Double"
+    ed["blocks"][0]["atoms"][2].update(el="S", at="O_Sulfone", g="R4_Tetrahedral", lab="S1")
+    mol = {**mol, "obj2": ed, "edits": [{"op": "bond", "i": 1, "bt": "Double"},
+                                        {"op": "atom", "i": 3, "el": "S", "at": "O_Sulfone", "g": "R4_Tetrahedral", "lab": "S1"}]}
     base_m = case_traces("selfM", mol, routes=("loads",))[0][0][0]
+    assert [e["ev"] for e in base_m["ev"]] == ["build", "write", "read", "write2", "read2", "edit", "write", "read"], base_m
     base_e = case_traces("selfE", ens, routes=("loads",))[0][0][0]
     base_t = {"tid": "selfT", "ev": A.typing_row("N", "N_Amide")[0]}
     muts = []
@@ -345,6 +385,11 @@ def binding_selftest(ev, rep):
     mut(base_m, "text2-charge", 4, lambda e: rd(e, 3)["atoms"][0].__setitem__("q", rd(e, 3)["atoms"][0]["q"] + 100))
     mut(base_m, "read2-geometry", 5, lambda e: rd(e, 4)["atoms"][1].__setitem__("g", "Unknown"))
     mut(base_m, "read-event-dropped", 3, lambda e: e.pop(2))
+    # after the edit of the same object: what a stale per-object cache in the writer would make the reader return
+    mut(base_m, "stale-bond-type-after-edit", 8, lambda e: rd(e, 7)["bonds"][0].__setitem__("bt", "Amide"))
+    mut(base_m, "stale-element-after-edit", 8, lambda e: rd(e, 7)["atoms"][2].__setitem__("el", "O"))
+    mut(base_m, "stale-label-after-edit", 8, lambda e: rd(e, 7)["atoms"][2].__setitem__("lab", "O"))
+    mut(base_m, "edit-event-dropped", 6, lambda e: e.pop(5))
     mut(base_e, "conformers-swapped", 3, lambda e: e[2]["res"]["blocks"].reverse())
     mut(base_e, "conformer-lost", 3, lambda e: e[2]["res"]["blocks"].pop())
     mut(base_t, "typing-token2", 7, lambda e: e[6]["tok2"].__setitem__("suf", ""))
@@ -436,6 +481,9 @@ def run(tier, seed, replay_path):
                        "rejected_traces": len(sbad),
                        "by_kind": {k: sum(1 for c in cases if (c["obj"]["kind"] if c["src"] == "rec" else c["as"]) == k)
                                    for k in ("Mol", "Struct", "Ens")}},
+           edits={"objects_edited_and_written_again": sum(1 for c in cases if c.get("edits")),
+                  "operations": {k: sum(1 for c in cases for o in c.get("edits", []) if o["op"] == k)
+                                 for k in ("bond", "atom", "move", "name")}},
            vocabulary={k: len(v) for k, v in voc().items()},
            exhaustive=False,
            exhaustive_note="typing: every member of Element x AtomType x AtomGeom and of BondType, on the model and on the "
@@ -447,6 +495,9 @@ def run(tier, seed, replay_path):
     ev.add_samples(samples, 2)
     ev.add_samples([{"typing_trace": ttraces[len(ttraces) // 2]["ev"][:3]}], 1)
     ev.assumptions += [
+        "edits are made through public attributes (bond.btype, atom.element/atype/geom/label, coords, atomic_charges, name) "
+        "after a complete write/read/write/read cycle; Bond.set_mol2_type is not used for editing (it is @cache-decorated in "
+        "the pinned tree: a repeated call with the same token is a no-op, outside this property)",
         "scope: whitespace-free labels, one-line names without leading/trailing blanks, finite coordinates |x| < 1e5 A, "
         "one bond per atom pair, ensembles with >= 1 conformer",
         "bond endpoints are compared as an unordered pair; an empty label and a bond type mol2 cannot express are free on "
@@ -459,6 +510,8 @@ def run(tier, seed, replay_path):
         "conversion (python Decimal, exact)"]
     rep.note(f"typing: {len(trows)} triples + {len(brows)} bond types in {len(ttraces)} traces, {len(tbad)} rejected; "
              f"{len(diffs)} spellings differ from the reference model (information)")
+    rep.note(f"edit-then-write-again continuations: {sum(1 for c in cases if c.get('edits'))} objects, "
+             f"{sum(len(c.get('edits', [])) for c in cases)} edit operations")
     rep.note(f"structures: {len(cases)} objects ({len(fcases)} from bundled files) x 2 read routes = {len(straces)} traces, "
              f"{len(sbad)} rejected; {tcalls + scalls} real calls")
     return rep.finish()
@@ -472,8 +525,10 @@ def do_replay(path):
         evs = A.bond_rows()[0] if el is None else A.typing_row(el, at)[0]
         traces = [{"tid": doc["tid"], "ev": evs}]
     else:
-        o = realise(doc["case"])
-        evs, _, text = A.run_case(o, doc["route"])
+        case = doc["case"]
+        o = realise(case)
+        edit = (case["edits"], case["obj2"]) if doc["route"] == "loads" and case.get("edits") else None
+        evs, _, text = A.run_case(o, doc["route"], edit)
         traces = [{"tid": "replay", "ev": evs}]
         print(text if text and len(text) < 3000 else "(text omitted)")
     v, _ = T.validate("Mol2TextTrace", traces, trace_cfg(), par=1, tag="c07rp")
